@@ -505,7 +505,9 @@ PROPS = {
             {"kind": "graph", "spec": "MC_C05", "cfg": "MC_C05_small", "tiers": ["quick"], "module": "ITS", "evkinds": ITS_EVENTS,
              "need": C05_NEED, "control": other_amount_control, "max_len": 40, "workers": 16},
             {"kind": "graph", "spec": "MC_C05", "cfg": "MC_C05_full", "tiers": ["thorough"], "module": "ITS", "evkinds": ITS_EVENTS,
-             "need": C05_NEED + ["MinterMint/ok"], "control": other_amount_control, "max_len": 40, "workers": 16, "tlc_timeout": 3600},
+             "need": C05_NEED + ["MinterMint/ok"], "control": other_amount_control, "max_len": 40, "workers": 16, "tlc_timeout": 3600,
+             # all ~350 000 edges take 37 min of replay on a loaded machine: a node cover plus 150 000 sampled edges
+             "thorough_edges": 150000},
             # the canonical token is an interchain token built from the repository's source (not the pinned wasm)
             {"kind": "graph", "spec": "MC_C05", "cfg": "MC_C05_itk", "module": "ITS", "evkinds": ITS_EVENTS,
              "need": C05_NEED, "control": other_amount_control, "max_len": 40, "workers": 16},
